@@ -4,26 +4,23 @@ contracts.
 
 Property theorems about the models of Model/FiberSync*.lean, for **every** number of fibers, every sequence of
 operations each fiber chooses to perform and every scheduler choice (which runnable fiber moves next, which waiter a
-`NotifyOne` wakes, the jitter of timed waits, the coin of `SharedMutex::unlock`).  Invariants and helper lemmas are in
-Proofs/FiberSync*.lean.
+`NotifyOne` wakes, the jitter of timed waits).  Invariants and helper lemmas are in Proofs/FiberSync*.lean.
 
-Outcome on the code as it is:
-  `Mutex` + `ConditionVariable`                 every theorem holds;
-  `TimedMutex`                                   exclusion fails (D6), everything else holds; D8 is a memory-safety
-                                                 defect of `SleepPreemptive` reached by every kind of timed wait;
-  `RecursiveMutex`, `RecursiveTimedMutex`        exclusion holds *because* nobody is ever woken (D4): the wake-up theorem
-                                                 fails; repairing D4 alone makes exclusion fail (D6);
-  `SharedMutex`, `SharedTimedMutex`              exclusion, try-soundness and the wake-up theorem fail (D5, D6, D7);
-                                                 what holds is stated for executions that have not taken a D5/D6 path;
-  `thread::join`, `sleep_for`                    hold;
-  thread-local pointers                          per fiber for `p = ptr` / `p.Get()`; not for pointers of different
-                                                 pointee types (D13) and not for `q = p` (D14).
-Each refuted statement has a `…_violated_witness` theorem: a concrete run of the executable model (the same runs
-are replayed on the real library by harness/c18.cpp, see notes/C18.md).
+All theorems hold at full strength on the tree with the fix commits 72143ee, 32ae58e, 4d75ee5, 37d0a59, 5d29c51, 33a96a1,
+33c5ab3.  Before them the code had the defects D4-D8, D11-D14; the models contained them and this file carried a
+`…_violated_witness` theorem for each refuted statement (git history of this file; notes/C18.md lists every defect with
+its fix commit and the scenario + choice string that exhibited it on the implementation):
+  excl_TimedMutex, try_sound_TimedMutex            D6   32ae58e  `timed f0=L,U f1=F50,U f2=L,U`
+  sleep_list_lookup (end() dereference)              D8   33a96a1  `timed f0=L,U f1=F0,U`
+  quiescent_none_parked_RecursiveMutex               D4   4d75ee5  `rec f0=L,L,U,U f1=L,U`
+  (repairing D4 without the `while` ⇒ two owners)    D6   4d75ee5  model run f0 lock, f1 park, f0 unlock+notify, f2 lock, f1 resume
+  excl_SharedMutex                                   D6   5d29c51  `shared f0=LS,US f1=L,U f2=LS,US`
+  excl_SharedTimedMutex, try_sound_SharedTimedMutex  D5   37d0a59  `sharedt f0=LS,US f1=F50,U f2=TS,US`, `sharedt f0=F50,U f1=LS,US f2=L,U`
+  quiescent_none_parked_SharedMutex                  D7   5d29c51  `shared f0=L,U f1=LS,J2,US f2=LS,US`
+  tls_per_fiber (copy, alias)                        D14, D13  33c5ab3  `tls f0=P1,C,GQ,E,GQ f1=GQ,P2,E,GQ`, `tls f0=GL,P1,GL f1=GL,G`
 -/
 import YaclibModel.Proofs.FiberSyncWitness
 import YaclibModel.Proofs.FiberSyncBridge
-import YaclibModel.Proofs.FiberSyncBridgeRepaired
 import YaclibModel.Extracted.Kernels
 import YaclibModel.Model.Skeletons
 
@@ -41,91 +38,42 @@ theorem eq_singleton_of_mem {l : List Fid} {f : Fid} (hl : l.length ≤ 1) (hf :
 /-! ## Mutex, TimedMutex, ConditionVariable (model `Mx`) -/
 section MutexCv
 open Mx
-variable {k fx : Bool} {n : Nat} {s : State}
+variable {k : Bool} {n : Nat} {s : State}
 
-/-- `yaclib_std::mutex` (also under `condition_variable::wait`): never two holders -/
-theorem excl_Mutex (h : Reachable false fx n s) : s.holders.length ≤ 1 := by
-  have hi := inv_reachable h
-  have := hi.len
-  have hb := hi.barge_timed hi.hk
-  omega
+/-- `yaclib_std::mutex` (also under `condition_variable::wait`) and `yaclib_std::timed_mutex`: never two holders -/
+theorem excl_Mutex (h : Reachable k n s) : s.holders.length ≤ 1 := (inv_reachable h).len
 
-/-- `timed_mutex`: at most one holder *plus one per D6 hit* … -/
-theorem excl_TimedMutex_partial (h : Reachable k fx n s) : s.holders.length ≤ 1 + s.barge := (inv_reachable h).len
-
-/-- … and D6 does strike: f0 holds, f1 parks in `try_lock_for`, f0 unlocks (f1 notified), f2 locks, f1 resumes and
-    "locks" too.  Replayed on the implementation: scenario `timed f0=L,U f1=F50,U f2=L,U`. -/
-theorem excl_TimedMutex_violated_witness : ∃ s, Reachable true false 3 s ∧ s.holders = [2, 1] ∧ s.barge = 1 := by
-  have h := reach_run (k := true) (fx := false) (n := 3) Reachable.init
-    (ls := [.lockStart 0, .lockAcq 0, .tlfPark 1 30 50 0, .unlock 0 (some 1), .lockStart 2, .lockAcq 2, .tlfAcq 1])
-    (s' := _) rfl
-  exact ⟨_, h, rfl, rfl⟩
+theorem excl_TimedMutex (h : Reachable true n s) : s.holders.length ≤ 1 := excl_Mutex h
 
 /-- `try_lock`: success means the caller is the only holder, failure means somebody really holds the mutex -/
-theorem try_sound_Mutex (h : Reachable false fx n s) {f : Fid} {ok : Bool} {s' : State} (hs : Step s (.tryLock f ok) s') :
+theorem try_sound_Mutex (h : Reachable k n s) {f : Fid} {ok : Bool} {s' : State} (hs : Step s (.tryLock f ok) s') :
     (ok = true → s.holders = [] ∧ s'.holders = [f]) ∧ (ok = false → s.holders ≠ []) := by
   have hi := inv_reachable h
   match hs with
-  | .tryOk _ _ _ ho =>
-      have h0 : s.holders = [] := by
-        have := hi.occ_free ho
-        have hb := hi.barge_timed hi.hk
-        exact List.length_eq_zero_iff.mp (by omega)
-      simp [acquire, h0]
+  | .tryOk _ _ _ ho => simp [acquire, hi.occ_free ho]
   | .tryFail _ _ _ ho => simp; exact hi.occ_held ho
 
-/-- `try_lock_for/until` returning false: the requested deadline has passed (in virtual time) … -/
-theorem try_sound_TimedMutex_fail (h : Reachable k fx n s) {f : Fid} {t : Nat} {s' : State} (hs : Step s (.tlfTimeout f t) s') :
-    ∃ req dl, s.pc f = .tlfParked req dl ∧ req ≤ t := by
+/-- `try_lock_for/until`: returning true, the caller is the only holder (whether it had to wait or not); returning
+    false, the requested deadline has passed (in virtual time) -/
+theorem try_sound_TimedMutex (h : Reachable k n s) {f : Fid} {t : Nat} {s' : State} :
+    (Step s (.tlfAcq f) s' → s'.holders = [f]) ∧
+    (Step s (.tlfTimeout f t) s' → ∃ req dl, s.pc f = .tlfParked req dl ∧ req ≤ t) := by
   have hi := inv_reachable h
-  match hs with
-  | .tlfTimeout _ _ _ req dl _ hp hd _ => exact ⟨req, dl, hp, Nat.le_trans (hi.dl_tlf f req dl hp) hd⟩
-
-/-- … returning true: the caller is the only holder as long as D6 has not struck … -/
-theorem try_sound_TimedMutex_partial (h : Reachable k fx n s) {f : Fid} {s' : State} (hs : Step s (.tlfAcq f) s')
-    (hb : s'.barge = 0) : s'.holders = [f] := by
-  have hi' := inv_reachable (.step h hs)
-  have hl := hi'.len
-  refine eq_singleton_of_mem (by omega) ?_
-  match hs with
-  | .tlfFast .. => simp [acquire]
-  | .tlfWokenAcq .. => simp [doTlfWokenAcq, acquire]
-  | .tlfRecheckAcq .. => simp [acquire]
-
-/-- … and when it has, `try_lock_for` reports success while another fiber holds the mutex -/
-theorem try_sound_TimedMutex_violated_witness :
-    ∃ s s', Reachable true false 3 s ∧ Step s (.tlfAcq 1) s' ∧ s.holders = [2] ∧ s'.holders = [2, 1] := by
-  have h := reach_run (k := true) (fx := false) (n := 3) Reachable.init
-    (ls := [.lockStart 0, .lockAcq 0, .tlfPark 1 30 50 0, .unlock 0 (some 1), .lockStart 2, .lockAcq 2]) (s' := _) rfl
-  exact ⟨_, _, h, next_sound (l := .tlfAcq 1) (s' := _) rfl, rfl, rfl⟩
-
-/-- the proposed repair of D6 (`while (r && _occupied)` with the deadline fixed at the call, model flag `fixed`) is
-    sufficient: never two holders of a `timed_mutex`, and a successful `try_lock_for` is the only holder -/
-theorem excl_TimedMutex_repaired (h : Reachable k true n s) : s.holders.length ≤ 1 := by
-  have hi := inv_reachable h
-  have hfx : s.fixed = true := by
-    clear hi
-    induction h with
-    | init => rfl
-    | step _ hs ih => cases hs <;> (try cases ‹Option Fid›) <;> simp_all [acquire, doLockPark, release, notifyM, doTlfPark, doTlfWokenAcq, doTlfRepark, doTlfTimeout, doCvWait, doCvWaitFor, doCvTimeout, doNotifyOne, doNotifyAll]
-  have := hi.len
-  have := hi.barge_fixed hfx
-  omega
-
-theorem try_sound_TimedMutex_repaired (h : Reachable k true n s) {f : Fid} {s' : State} (hs : Step s (.tlfAcq f) s') :
-    s'.holders = [f] := by
-  have h' : Reachable k true n s' := .step h hs
-  have hl := excl_TimedMutex_repaired h'
-  refine eq_singleton_of_mem hl ?_
-  match hs with
-  | .tlfFast .. => simp [acquire]
-  | .tlfWokenAcq .. => simp [doTlfWokenAcq, acquire]
-  | .tlfRecheckAcq .. => simp [acquire]
+  constructor
+  · intro hs
+    have hl := excl_Mutex (.step h hs)
+    refine eq_singleton_of_mem hl ?_
+    match hs with
+    | .tlfFast .. => simp [acquire]
+    | .tlfRecheckAcq .. => simp [acquire]
+  · intro hs
+    match hs with
+    | .tlfTimeout _ _ _ req dl _ hp hd _ => exact ⟨req, dl, hp, Nat.le_trans (hi.dl_tlf f req dl hp) hd⟩
 
 /-- a blocked locker is woken when the mutex becomes available (safety form): in a state in which no fiber can move —
     now or at any later virtual time — every fiber has finished, waits on the condition variable for a notify, or is
-    parked in `lock()` (possibly the re-lock of a cv wait) on a mutex that really is held.  Holds for `timed_mutex` too. -/
-theorem quiescent_none_parked_Mutex (h : Reachable k fx n s) (hq : Quiescent s) (f : Fid) :
+    parked in `lock()` (possibly the re-lock of a cv wait) on a mutex that really is held.  Also for `timed_mutex`. -/
+theorem quiescent_none_parked_Mutex (h : Reachable k n s) (hq : Quiescent s) (f : Fid) :
     s.pc f = .done ∨ s.pc f = .cvParked ∨ (∃ c, s.pc f = .lockParked c ∧ s.occupied = true ∧ s.holders ≠ []) := by
   have hi := inv_reachable h
   rcases quiescent_classify hi hq f with hd | ⟨c, hc⟩ | hcv
@@ -135,7 +83,7 @@ theorem quiescent_none_parked_Mutex (h : Reachable k fx n s) (hq : Quiescent s) 
   · exact Or.inr (Or.inl hcv)
 
 /-- the invariant behind it: a free mutex with parked lockers always has a notified locker on its way -/
-theorem no_lost_wakeup_Mutex (h : Reachable k fx n s) (ho : s.occupied = false) (hm : s.mq ≠ []) :
+theorem no_lost_wakeup_Mutex (h : Reachable k n s) (ho : s.occupied = false) (hm : s.mq ≠ []) :
     ∃ g, g ∈ s.transit ∧ (s.pc g).woken = true := by
   have hi := inv_reachable h
   have ht := hi.free_transit ho hm
@@ -144,7 +92,7 @@ theorem no_lost_wakeup_Mutex (h : Reachable k fx n s) (ho : s.occupied = false) 
   | cons g rest => exact ⟨g, by simp, hi.transit_pc g (by rw [htr]; simp)⟩
 
 /-- `notify_one` wakes a waiter that was already blocked on the condition variable (and exactly when there is one) -/
-theorem notify_wakes_blocked (h : Reachable k fx n s) {f : Fid} {w : Option Fid} {s' : State}
+theorem notify_wakes_blocked (h : Reachable k n s) {f : Fid} {w : Option Fid} {s' : State}
     (hs : Step s (.notifyOne f w) s') :
     (w = none → s.cq = []) ∧
     (∀ g, w = some g → g ∈ s.cq ∧ (s.pc g).inCq = true ∧ s'.pc g = .locking (.cv false) ∧ g ∉ s'.cq) := by
@@ -160,7 +108,7 @@ theorem notify_wakes_blocked (h : Reachable k fx n s) {f : Fid} {w : Option Fid}
           exact ⟨hw, hi.cq_pc g hw, by simp [doNotifyOne], by simp [doNotifyOne, not_mem_rm_self]⟩
 
 /-- `notify_all` wakes every blocked waiter -/
-theorem notify_all_wakes_all (h : Reachable k fx n s) {f : Fid} {s' : State} (hs : Step s (.notifyAll f) s') :
+theorem notify_all_wakes_all (h : Reachable k n s) {f : Fid} {s' : State} (hs : Step s (.notifyAll f) s') :
     s'.cq = [] ∧ ∀ g, (s.pc g).inCq = true → s'.pc g = .locking (.cv false) := by
   have hi := inv_reachable h
   match hs with
@@ -185,16 +133,16 @@ theorem cv_wait_ends_by_notify {l : Label} {s' : State} (hs : Step s l s') {g : 
   | cvWait f w h hh hw => cases w <;> simp [doCvWait, release, notifyM, upd_apply] at hg' <;> grind [wake]
   | cvWaitFor f w t d j h hh hw ht => cases w <;> simp [doCvWaitFor, release, notifyM, upd_apply] at hg' <;> grind [wake]
   | tryFail f h ho => exact absurd hg hg'
-  | _ => simp [acquire, doLockPark, doTlfPark, doTlfWokenAcq, doTlfTimeout, doTlfRepark, doCvTimeout, upd_apply] at hg' <;> grind
+  | _ => simp [acquire, doLockPark, doTlfPark, doTlfTimeout, doTlfRepark, doCvTimeout, upd_apply] at hg' <;> grind
 
 /-- timed waits end at or after the deadline that was asked for (virtual time): `try_lock_for/until` failing,
     `cv.wait_for/until` timing out, `sleep_for` returning -/
-theorem timed_wait_not_early (h : Reachable k fx n s) {f : Fid} {t : Nat} {s' : State} :
+theorem timed_wait_not_early (h : Reachable k n s) {f : Fid} {t : Nat} {s' : State} :
     (Step s (.tlfTimeout f t) s' → ∃ req dl, s.pc f = .tlfParked req dl ∧ req ≤ t) ∧
     (Step s (.cvTimeout f t) s' → ∃ req dl, s.pc f = .cvTimed req dl ∧ req ≤ t) ∧
     (Step s (.sleepWake f t) s' → ∃ dl, s.pc f = .sleeping dl ∧ dl ≤ t) := by
   have hi := inv_reachable h
-  refine ⟨try_sound_TimedMutex_fail h, ?_, ?_⟩
+  refine ⟨(try_sound_TimedMutex h).2, ?_, ?_⟩
   · intro hs
     match hs with
     | .cvTimeout _ _ _ req dl hp hd _ => exact ⟨req, dl, hp, Nat.le_trans (hi.dl_cv f req dl hp) hd⟩
@@ -202,84 +150,64 @@ theorem timed_wait_not_early (h : Reachable k fx n s) {f : Fid} {t : Nat} {s' : 
     match hs with
     | .sleepWake _ _ _ dl hp hd _ => exact ⟨dl, hp, hd⟩
 
-/-- the deadline a timed wait records is the time of the call plus the duration that was asked for -/
+/-- the deadline a timed wait records is the time of the call plus the duration that was asked for; a timed lock that is
+    woken and has to wait again keeps the deadline of the call -/
 theorem timed_wait_deadline {f : Fid} {t d j : Nat} {w : Option Fid} {s' : State} :
     (Step s (.tlfPark f t d j) s' → s'.pc f = .tlfParked (t + d) (t + d + j)) ∧
+    (Step s (.tlfRepark f j) s' → ∃ req, s.pc f = .tlfLocking req ∧ s'.pc f = .tlfParked req (req + j)) ∧
     (Step s (.cvWaitFor f w t d j) s' → s'.pc f = .cvTimed (t + d) (t + d + j)) ∧
     (Step s (.sleepStart f t d) s' → s'.pc f = .sleeping (t + d)) := by
-  refine ⟨?_, ?_, ?_⟩ <;> intro hs <;> cases hs <;> simp [doTlfPark, doCvWaitFor]
-
-/-- D8: a timed wait whose jittered deadline equals the current time makes `SleepPreemptive` dereference
-    `_sleep_list.end()` (`try_lock_for(0ns)` with jitter 0).  Replayed: scenario `timed f0=L,U f1=F0,U`. -/
-theorem sleep_list_lookup_violated_witness : ∃ s, Reachable true false 2 s ∧ s.endDeref = 1 := by
-  have h := reach_run (k := true) (fx := false) (n := 2) Reachable.init
-    (ls := [.lockStart 0, .lockAcq 0, .tlfPark 1 30 0 0, .tlfTimeout 1 30]) (s' := _) rfl
-  exact ⟨_, h, rfl⟩
-
-/-- … and only then -/
-theorem sleep_list_lookup_partial {l : Label} {s' : State} (hs : Step s l s') (hd : s.endDeref < s'.endDeref) :
-    (∃ f t, l = .tlfPark f t 0 0) ∨ (∃ f w t, l = .cvWaitFor f w t 0 0) := by
-  cases hs with
-  | tlfPark f t d j hk h ho ht =>
-      by_cases h0 : d + j = 0
-      · have hd0 : d = 0 := by omega
-        have hj0 : j = 0 := by omega
-        subst hd0 hj0; exact Or.inl ⟨f, t, rfl⟩
-      · simp only [doTlfPark, if_neg h0] at hd; omega
-  | cvWaitFor f w t d j h hh hw ht =>
-      by_cases h0 : d + j = 0
-      · have hd0 : d = 0 := by omega
-        have hj0 : j = 0 := by omega
-        subst hd0 hj0; exact Or.inr ⟨f, w, t, rfl⟩
-      · cases w <;> simp only [doCvWaitFor, release, notifyM, if_neg h0] at hd <;> omega
-  | unlock f w h hh hw => cases w <;> simp [release, notifyM] at hd
-  | cvWait f w h hh hw => cases w <;> simp [doCvWait, release, notifyM] at hd
-  | notifyOne f w h hw => cases w <;> simp [doNotifyOne] at hd
-  | _ => simp [acquire, doLockPark, doTlfWokenAcq, doTlfTimeout, doTlfRepark, doCvTimeout, doNotifyAll] at hd
+  refine ⟨?_, ?_, ?_, ?_⟩ <;> intro hs
+  · cases hs; simp [doTlfPark]
+  · match hs with
+    | .tlfRepark _ _ req _ _ hp _ => exact ⟨req, hp, by simp [doTlfRepark]⟩
+  · cases hs; simp [doCvWaitFor]
+  · cases hs; simp
 
 /-- everything the trace validator accepts is a behaviour the theorems speak about -/
-theorem validator_sound_Mx {l : Label} {s' : State} (h : Reachable k fx n s) (hn : next s l = some s') : Reachable k fx n s' :=
+theorem validator_sound_Mx {l : Label} {s' : State} (h : Reachable k n s) (hn : next s l = some s') : Reachable k n s' :=
   .step h (next_sound hn)
 
 /-! non-vacuity -/
 
 /-- a contended mutex: f1 parks, f0's unlock notifies it, it re-checks and takes the lock -/
-example : ∃ s, Reachable false false 2 s ∧ s.holders = [1] ∧ s.transit = [] := by
-  have h := reach_run (k := false) (fx := false) (n := 2) Reachable.init
+example : ∃ s, Reachable false 2 s ∧ s.holders = [1] ∧ s.transit = [] := by
+  have h := reach_run (k := false) (n := 2) Reachable.init
     (ls := [.lockStart 0, .lockAcq 0, .lockStart 1, .lockPark 1, .unlock 0 (some 1), .lockAcq 1]) (s' := _) rfl
   exact ⟨_, h, rfl, rfl⟩
 
-/-- barging on a plain mutex is harmless: the notified fiber finds the mutex taken again and parks again -/
-example : ∃ s, Reachable false false 3 s ∧ s.holders = [2] ∧ s.mq = [1] := by
-  have h := reach_run (k := false) (fx := false) (n := 3) Reachable.init
+/-- barging is harmless: the notified fiber finds the mutex taken again and parks again -/
+example : ∃ s, Reachable false 3 s ∧ s.holders = [2] ∧ s.mq = [1] := by
+  have h := reach_run (k := false) (n := 3) Reachable.init
     (ls := [.lockStart 0, .lockAcq 0, .lockStart 1, .lockPark 1, .unlock 0 (some 1), .lockStart 2, .lockAcq 2, .lockPark 1])
     (s' := _) rfl
   exact ⟨_, h, rfl, rfl⟩
 
+/-- the schedule that exhibited D6 on `timed_mutex`: the woken `try_lock_for` finds the mutex taken again and parks again,
+    with the deadline of its call (80) and a fresh jitter -/
+example : ∃ s, Reachable true 3 s ∧ s.holders = [2] ∧ s.mq = [1] ∧ s.pc 1 = .tlfParked 80 81 := by
+  have h := reach_run (k := true) (n := 3) Reachable.init
+    (ls := [.lockStart 0, .lockAcq 0, .tlfPark 1 30 50 0, .unlock 0 (some 1), .lockStart 2, .lockAcq 2, .tlfRepark 1 1])
+    (s' := _) rfl
+  exact ⟨_, h, rfl, rfl, rfl⟩
+
 /-- cv: wait releases the mutex, notify_one wakes the waiter, it re-locks after the notifier unlocked -/
-example : ∃ s, Reachable false false 2 s ∧ s.holders = [0] ∧ s.pc 0 = .idle := by
-  have h := reach_run (k := false) (fx := false) (n := 2) Reachable.init
+example : ∃ s, Reachable false 2 s ∧ s.holders = [0] ∧ s.pc 0 = .idle := by
+  have h := reach_run (k := false) (n := 2) Reachable.init
     (ls := [.lockStart 0, .lockAcq 0, .cvWait 0 none, .lockStart 1, .lockAcq 1, .notifyOne 1 (some 0), .lockPark 0,
             .unlock 1 (some 0), .lockAcq 0]) (s' := _) rfl
   exact ⟨_, h, rfl, rfl⟩
 
 /-- a timed cv wait that times out at its deadline and re-locks -/
-example : ∃ s, Reachable false false 1 s ∧ s.holders = [0] ∧ s.now = 61 := by
-  have h := reach_run (k := false) (fx := false) (n := 1) Reachable.init
+example : ∃ s, Reachable false 1 s ∧ s.holders = [0] ∧ s.now = 61 := by
+  have h := reach_run (k := false) (n := 1) Reachable.init
     (ls := [.lockStart 0, .lockAcq 0, .cvWaitFor 0 none 20 40 1, .cvTimeout 0 61, .lockAcq 0]) (s' := _) rfl
   exact ⟨_, h, rfl, rfl⟩
 
-/-- the repaired `try_lock_for` in the D6 schedule: the woken waiter finds the mutex taken again and parks again -/
-example : ∃ s, Reachable true true 3 s ∧ s.holders = [2] ∧ s.mq = [1] ∧ s.pc 1 = .tlfParked 80 81 := by
-  have h := reach_run (k := true) (fx := true) (n := 3) Reachable.init
-    (ls := [.lockStart 0, .lockAcq 0, .tlfPark 1 30 50 0, .unlock 0 (some 1), .lockStart 2, .lockAcq 2, .tlfRepark 1 1])
-    (s' := _) rfl
-  exact ⟨_, h, rfl, rfl, rfl⟩
-
 /-- a quiescent state with a parked locker exists (the quiescence theorem is not vacuous): f0 finished holding the
     mutex, f1 parked -/
-example : ∃ s, Reachable false false 2 s ∧ Quiescent s ∧ s.pc 1 = .lockParked .plain := by
-  have h := reach_run (k := false) (fx := false) (n := 2) Reachable.init
+example : ∃ s, Reachable false 2 s ∧ Quiescent s ∧ s.pc 1 = .lockParked .plain := by
+  have h := reach_run (k := false) (n := 2) Reachable.init
     (ls := [.lockStart 0, .lockAcq 0, .finish 0, .lockStart 1, .lockPark 1]) (s' := _) rfl
   refine ⟨_, h, ?_, rfl⟩
   intro l s' hs
@@ -287,13 +215,13 @@ example : ∃ s, Reachable false false 2 s ∧ Quiescent s ∧ s.pc 1 = .lockPar
 
 end MutexCv
 
-/-! ## RecursiveMutex, RecursiveTimedMutex (model `Rm`, the code as it is: `patch = false`) -/
+/-! ## RecursiveMutex, RecursiveTimedMutex (model `Rm`) -/
 section Recursive
 open Rm
-variable {k lp : Bool} {n : Nat} {s : State}
+variable {k : Bool} {n : Nat} {s : State}
 
 /-- all acquisitions not yet released belong to one fiber -/
-theorem excl_RecursiveMutex (h : Reachable k false lp n s) : ∀ a ∈ s.holders, ∀ b ∈ s.holders, a = b := by
+theorem excl_RecursiveMutex (h : Reachable k n s) : ∀ a ∈ s.holders, ∀ b ∈ s.holders, a = b := by
   intro a ha b hb
   have hi := inv_reachable h
   have := hi.own a ha
@@ -301,10 +229,10 @@ theorem excl_RecursiveMutex (h : Reachable k false lp n s) : ∀ a ∈ s.holders
   exact (Option.some.inj this).symm
 
 /-- `_occupied_count` is the number of acquisitions not yet released -/
-theorem count_exact_RecursiveMutex (h : Reachable k false lp n s) : s.count = s.holders.length := (inv_reachable h).cnt
+theorem count_exact_RecursiveMutex (h : Reachable k n s) : s.count = s.holders.length := (inv_reachable h).cnt
 
 /-- `try_lock`: after success every holder is the caller; failure means another fiber really holds the mutex -/
-theorem try_sound_RecursiveMutex (h : Reachable k false lp n s) {f : Fid} {ok : Bool} {s' : State}
+theorem try_sound_RecursiveMutex (h : Reachable k n s) {f : Fid} {ok : Bool} {s' : State}
     (hs : Step s (.tryLock f ok) s') :
     (ok = true → ∀ a ∈ s'.holders, a = f) ∧ (ok = false → ∃ g, g ≠ f ∧ g ∈ s.holders) := by
   have hi := inv_reachable h
@@ -327,195 +255,97 @@ theorem try_sound_RecursiveMutex (h : Reachable k false lp n s) {f : Fid} {ok : 
           refine ⟨g, ?_, by simp⟩
           intro hgf; subst hgf; exact hf.2 (hi.own g hg)
 
-/-- `try_lock_for/until` returning false: the requested deadline has passed -/
-theorem try_sound_RecursiveTimedMutex_fail (h : Reachable k false lp n s) {f : Fid} {t : Nat} {s' : State}
-    (hs : Step s (.tlfTimeout f t) s') : ∃ req dl, s.pc f = .tParked req dl ∧ req ≤ t := by
+/-- `try_lock_for/until`: returning true every holder is the caller, returning false the requested deadline has passed -/
+theorem try_sound_RecursiveTimedMutex (h : Reachable k n s) {f : Fid} {t : Nat} {s' : State} :
+    (Step s (.tlfAcq f) s' → ∀ a ∈ s'.holders, a = f) ∧
+    (Step s (.tlfTimeout f t) s' → ∃ req dl, s.pc f = .tParked req dl ∧ req ≤ t) := by
   have hi := inv_reachable h
-  match hs with
-  | .tlfTimeout _ _ _ req dl _ hp hd _ => exact ⟨req, dl, hp, Nat.le_trans (hi.dl f req dl hp) hd⟩
+  constructor
+  · intro hs a ha
+    have hi' := inv_reachable (.step h hs)
+    have := hi'.own a ha
+    match hs with
+    | .tlfFast .. => simp [lockHelper] at this; exact this.symm
+    | .tlfRecheckAcq .. => simp [lockHelper] at this; exact this.symm
+  · intro hs
+    match hs with
+    | .tlfTimeout _ _ _ req dl _ hp hd _ => exact ⟨req, dl, hp, Nat.le_trans (hi.dl f req dl hp) hd⟩
 
-/-- D4, stated positively: no fiber parked by `lock()` / `try_lock_for()` is ever woken by a notify -/
-theorem recursive_waiter_never_notified (h : Reachable k false lp n s) (g : Fid) : (s.pc g).woke = false :=
-  (inv_reachable h).no_woke g
-
-/-- D4: `quiescent_none_parked_RecursiveMutex` is false.  f0 locks, f1 calls `lock()` and parks, f0 unlocks and
-    finishes: nobody can move, f1 is parked on a free mutex.  Replayed: scenario `rec f0=L,L,U,U f1=L,U`. -/
-theorem quiescent_none_parked_RecursiveMutex_violated_witness :
-    ∃ s, Reachable false false false 2 s ∧ Quiescent s ∧ s.pc 1 = .parked ∧ s.count = 0 ∧ s.holders = [] := by
-  have h := reach_run (k := false) (p := false) (lp := false) (n := 2) Reachable.init
-    (ls := [.lockAcq 0, .lockPark 1, .unlock 0 none, .finish 0]) (s' := _) rfl
-  refine ⟨_, h, ?_, rfl, rfl, rfl⟩
-  intro l s' hs
-  cases hs <;> simp_all [init, upd, lockHelper, doPark, doUnlock, rm] <;> grind
-
-/-- what the repair has to contain: with `unlock` notifying (D4 repaired) but the single `if` left in `lock()` (D6),
-    two fibers own the mutex.  f0 holds, f1 parks, f0 unlocks and notifies f1, f2 locks, f1 resumes → `LockHelper()`. -/
-theorem patchD4_alone_violated_witness : ∃ s, Reachable false true false 3 s ∧ s.holders = [2, 1] ∧ s.barge = 1 := by
-  have h := reach_run (k := false) (p := true) (lp := false) (n := 3) Reachable.init
-    (ls := [.lockAcq 0, .lockPark 1, .unlock 0 (some 1), .lockAcq 2, .lockAcq 1]) (s' := _) rfl
-  exact ⟨_, h, rfl, rfl⟩
-
-/-- the proposed repair (`unlock` notifies when the count drops to 0 **and** `lock()` / `TimedWaitHelper` re-check in a
-    `while`; model flags `patch = loop = true`) is sufficient: exclusion … -/
-theorem excl_RecursiveMutex_repaired (h : Reachable k true true n s) : ∀ a ∈ s.holders, ∀ b ∈ s.holders, a = b := by
-  intro a ha b hb
-  have hi := invF_reachable h
-  have := hi.own a ha
-  rw [hi.own b hb] at this
-  exact (Option.some.inj this).symm
-
-/-- … and the wake-up theorem that D4 refutes: in a quiescent state every fiber has finished or is parked in `lock()`
-    on a mutex that really is held -/
-theorem quiescent_none_parked_RecursiveMutex_repaired (h : Reachable k true true n s) (hq : Quiescent s) (f : Fid) :
+/-- a blocked locker is woken when the mutex becomes available (safety form): in a quiescent state every fiber has
+    finished or is parked in `lock()` on a mutex that really is held -/
+theorem quiescent_none_parked_RecursiveMutex (h : Reachable k n s) (hq : Quiescent s) (f : Fid) :
     s.pc f = .done ∨ (s.pc f = .parked ∧ s.count ≠ 0 ∧ s.holders ≠ []) := by
-  have hi := invF_reachable h
-  rcases quiescent_classifyF hi hq f with hd | hp
+  have hi := inv_reachable h
+  rcases quiescent_classify hi hq f with hd | hp
   · exact Or.inl hd
-  · exact Or.inr ⟨hp, quiescent_parked_heldF hi hq f hp⟩
+  · exact Or.inr ⟨hp, quiescent_parked_held hi hq f hp⟩
 
-/-- the D4 schedule on the repaired code: f1 is notified, re-checks and takes the mutex -/
-example : ∃ s, Reachable false true true 2 s ∧ s.holders = [1] ∧ s.owner = some 1 ∧ s.transit = [] := by
-  have h := reach_run (k := false) (p := true) (lp := true) (n := 2) Reachable.init
-    (ls := [.lockAcq 0, .lockPark 1, .unlock 0 (some 1), .finish 0, .lockAcq 1]) (s' := _) rfl
-  exact ⟨_, h, rfl, rfl, rfl⟩
+theorem no_lost_wakeup_RecursiveMutex (h : Reachable k n s) (hc : s.count = 0) (hr : s.rq ≠ []) :
+    ∃ g, g ∈ s.transit ∧ (s.pc g).rechecks = true := by
+  have hi := inv_reachable h
+  have ht := hi.free_transit hc hr
+  cases htr : s.transit with
+  | nil => exact absurd htr ht
+  | cons g rest => exact ⟨g, by simp, hi.transit_pc g (by rw [htr]; simp)⟩
 
-theorem validator_sound_Rm {p : Bool} {l : Label} {s' : State} (h : Reachable k p lp n s) (hn : next s l = some s') :
-    Reachable k p lp n s' := .step h (next_sound hn)
+theorem validator_sound_Rm {l : Label} {s' : State} (h : Reachable k n s) (hn : next s l = some s') : Reachable k n s' :=
+  .step h (next_sound hn)
 
 /-- recursion works: lock twice, unlock once, still owned; try_lock by another fiber fails -/
-example : ∃ s, Reachable false false false 2 s ∧ s.count = 1 ∧ s.owner = some 0 ∧ s.holders = [0] := by
-  have h := reach_run (k := false) (p := false) (lp := false) (n := 2) Reachable.init
+example : ∃ s, Reachable false 2 s ∧ s.count = 1 ∧ s.owner = some 0 ∧ s.holders = [0] := by
+  have h := reach_run (k := false) (n := 2) Reachable.init
     (ls := [.lockAcq 0, .tryLock 0 true, .tryLock 1 false, .unlock 0 none]) (s' := _) rfl
   exact ⟨_, h, rfl, rfl, rfl⟩
 
-/-- a contended `try_lock_for` can only time out, even though the mutex was released long before the deadline -/
-example : ∃ s, Reachable true false false 2 s ∧ s.count = 0 ∧ s.pc 1 = .idle ∧ s.holders = [] := by
-  have h := reach_run (k := true) (p := false) (lp := false) (n := 2) Reachable.init
-    (ls := [.tlfAcq 0, .tlfPark 1 10 1000 0, .unlock 0 none, .tlfTimeout 1 1010]) (s' := _) rfl
+/-- the schedule that exhibited D4: f1 is notified by the last unlock, re-checks and takes the mutex -/
+example : ∃ s, Reachable false 2 s ∧ s.holders = [1] ∧ s.owner = some 1 ∧ s.transit = [] := by
+  have h := reach_run (k := false) (n := 2) Reachable.init
+    (ls := [.lockAcq 0, .lockPark 1, .unlock 0 (some 1), .finish 0, .lockAcq 1]) (s' := _) rfl
   exact ⟨_, h, rfl, rfl, rfl⟩
+
+/-- the schedule in which a notify without the `while` would give two owners: f1 re-checks and parks again -/
+example : ∃ s, Reachable false 3 s ∧ s.holders = [2] ∧ s.rq = [1] := by
+  have h := reach_run (k := false) (n := 3) Reachable.init
+    (ls := [.lockAcq 0, .lockPark 1, .unlock 0 (some 1), .lockAcq 2, .lockPark 1]) (s' := _) rfl
+  exact ⟨_, h, rfl, rfl⟩
+
+/-- a contended `try_lock_for` is woken by the unlock and succeeds before its deadline -/
+example : ∃ s, Reachable true 2 s ∧ s.holders = [1] ∧ s.pc 1 = .idle := by
+  have h := reach_run (k := true) (n := 2) Reachable.init
+    (ls := [.tlfAcq 0, .tlfPark 1 10 1000 0, .unlock 0 (some 1), .tlfAcq 1]) (s' := _) rfl
+  exact ⟨_, h, rfl, rfl⟩
 
 end Recursive
 
 /-! ## SharedMutex, SharedTimedMutex (model `Sm`) -/
 section Shared
 open Sm
-variable {k fx : Bool} {n : Nat} {s : State}
+variable {k : Bool} {n : Nat} {s : State}
 
 /-- compatible holders: at most one writer, and no reader next to a writer -/
 def Compatible (s : State) : Prop := s.xh.length ≤ 1 ∧ (s.xh ≠ [] → s.sh = [])
 
-theorem not_compatible_of {s : State} {a b : Fid} (hx : s.xh = [a]) (hs : s.sh = [b]) : ¬ Compatible s := by
-  intro hc
-  have := hc.2 (by rw [hx]; simp)
-  rw [hs] at this; cases this
-
-theorem compatible_of_writer {s : State} {a : Fid} (hx : s.xh = [a]) (hs : s.sh = []) : Compatible s := by
-  simp [Compatible, hx, hs]
-
-/-- D6 on `shared_mutex`: f0 reads, f1 calls `lock()` and parks, f0's `unlock_shared` notifies f1, f2 takes a shared
-    lock, f1 resumes → `LockHelper()`: a writer next to a reader.  Replayed: scenario `shared f0=LS,US f1=L,U f2=LS,US`. -/
-theorem excl_SharedMutex_violated_witness : ∃ s, Reachable false false 3 s ∧ s.xh = [1] ∧ s.sh = [2] ∧ ¬ Compatible s := by
-  have h := reach_run (k := false) (fx := false) (n := 3) Reachable.init
-    (ls := [.sAcq 0, .xPark 1, .unlockS 0 (some 1), .sAcq 2, .xAcq 1]) (s' := _) rfl
-  exact ⟨_, h, rfl, rfl, not_compatible_of rfl rfl⟩
-
-/-- D5 on `shared_timed_mutex`, no contention needed: an exclusive `try_lock_for` succeeds, then `try_lock_shared`
-    succeeds as well.  Replayed: scenario `sharedt f0=LS,US f1=F50,U f2=TS,US`. -/
-theorem excl_SharedTimedMutex_violated_witness : ∃ s, Reachable true false 2 s ∧ s.xh = [0] ∧ s.sh = [1] ∧ ¬ Compatible s := by
-  have h := reach_run (k := true) (fx := false) (n := 2) Reachable.init (ls := [.txAcq 0, .tryS 1 true]) (s' := _) rfl
-  exact ⟨_, h, rfl, rfl, not_compatible_of rfl rfl⟩
-
-/-- what does hold: as long as no D5/D6 path was taken, holders are compatible -/
-theorem excl_Shared_partial (h : Reachable k false n s) (hc : Clean s) : Compatible s := by
+/-- `shared_mutex` and `shared_timed_mutex`: holders are always compatible -/
+theorem excl_SharedMutex (h : Reachable k n s) : Compatible s := by
   have hi := inv_reachable h
-  rcases hi.modes hc with ⟨_, hx, _, _⟩ | ⟨_, _, hx, hs, _⟩ | ⟨_, _, hx, _, _⟩
-  · simp [Compatible, hx]
-  · simp [Compatible, hx, hs]
-  · simp [Compatible, hx]
-
-/-- `_shared_owners_count` never underflows: every shared holder is counted -/
-theorem shared_count_no_underflow (h : Reachable k false n s) : s.sh.length ≤ s.cnt := (inv_reachable h).sh_cnt
-
-/-- try-operations under the same proviso: success holds in the requested mode, failure had an incompatible holder -/
-theorem try_sound_Shared_partial (h : Reachable k false n s) {f : Fid} {ok : Bool} {s' : State} (hc : Clean s') :
-    (Step s (.tryX f ok) s' → (ok = true → s'.xh = [f] ∧ s'.sh = []) ∧ (ok = false → s.xh ≠ [] ∨ s.sh ≠ [])) ∧
-    (Step s (.tryS f ok) s' → (ok = true → s'.xh = [] ∧ f ∈ s'.sh) ∧ (ok = false → s.xh ≠ [])) := by
-  have hi := inv_reachable h
-  constructor
-  · intro hs
-    have hi' := inv_reachable (.step h hs)
-    match hs with
-    | .tryXOk _ _ _ ho =>
-        refine ⟨fun _ => ?_, by simp⟩
-        rcases hi.modes (by simpa [Clean, lockHelper] using hc) with ⟨_, hx, hs, _⟩ | ⟨ho', _⟩ | ⟨ho', _⟩
-        · simp [lockHelper, hx, hs]
-        · rw [ho] at ho'; cases ho'
-        · rw [ho] at ho'; cases ho'
-    | .tryXFail _ _ _ ho =>
-        refine ⟨by simp, fun _ => ?_⟩
-        rcases hi.modes hc with ⟨ho', _⟩ | ⟨_, _, hx, _⟩ | ⟨_, _, _, hs, hp⟩
-        · rw [ho] at ho'; cases ho'
-        · left; intro h0; rw [h0] at hx; simp at hx
-        · right; intro h0; rw [h0] at hs; simp at hs; omega
-  · intro hs
-    match hs with
-    | .trySOk _ _ _ hx =>
-        refine ⟨fun _ => ?_, by simp⟩
-        rcases hi.modes (by simpa [Clean, sharedHelper] using hc) with ⟨_, hxh, _⟩ | ⟨ho, he, _⟩ | ⟨_, _, hxh, _⟩
-        · simp [sharedHelper, hxh]
-        · exact absurd ⟨ho, he⟩ hx
-        · simp [sharedHelper, hxh]
-    | .trySFail _ _ _ hx =>
-        refine ⟨by simp, fun _ => ?_⟩
-        rcases hi.modes hc with ⟨ho, _⟩ | ⟨_, _, hxh, _⟩ | ⟨_, he, _⟩
-        · rw [hx.1] at ho; cases ho
-        · intro h0; rw [h0] at hxh; simp at hxh
-        · rw [hx.2] at he; cases he
-
-/-- D5, sequential use: after an exclusive `try_lock_for` + `unlock` and a reader's `lock_shared` + `unlock_shared`
-    the count is stuck at 1 and `_occupied` stays true: `try_lock` fails although nobody holds the lock (and `lock()`
-    would park forever).  Replayed: scenario `sharedt f0=F50,U f1=LS,US f2=L,U`. -/
-theorem try_sound_SharedTimedMutex_violated_witness :
-    ∃ s s', Reachable true false 2 s ∧ Step s (.tryX 1 false) s' ∧ s.xh = [] ∧ s.sh = [] ∧ s.occ = true := by
-  have h := reach_run (k := true) (fx := false) (n := 2) Reachable.init
-    (ls := [.txAcq 0, .unlock 0 false none, .sAcq 1, .unlockS 1 none]) (s' := _) rfl
-  exact ⟨_, _, h, next_sound (l := .tryX 1 false) (s' := _) rfl, rfl, rfl, rfl⟩
-
-/-- timed acquisitions returning false: the requested deadline has passed -/
-theorem try_sound_SharedTimedMutex_fail (h : Reachable k false n s) {f : Fid} {t : Nat} {s' : State} :
-    (Step s (.txTimeout f t) s' → ∃ req dl, s.pc f = .txParked req dl ∧ req ≤ t) ∧
-    (Step s (.tsTimeout f t) s' → ∃ req dl, s.pc f = .tsParked req dl ∧ req ≤ t) := by
-  have hi := inv_reachable h
-  constructor <;> intro hs
-  · match hs with
-    | .txTimeout _ _ _ req dl _ hp hd _ => exact ⟨req, dl, hp, Nat.le_trans (hi.dl_tx f req dl hp) hd⟩
-  · match hs with
-    | .tsTimeout _ _ _ req dl _ hp hd _ => exact ⟨req, dl, hp, Nat.le_trans (hi.dl_ts f req dl hp) hd⟩
-
-/-- D7: `quiescent_none_parked_SharedMutex` is false.  A writer holds, two readers call `lock_shared()` and park (on
-    the exclusive queue), the writer's `unlock` wakes ONE of them; it takes the lock in shared mode — and the other
-    reader stays parked although the lock is held by readers only.  Replayed: `shared f0=L,U f1=LS,J2,US f2=LS,US`. -/
-theorem quiescent_none_parked_SharedMutex_violated_witness :
-    ∃ s, Reachable false false 3 s ∧ Quiescent s ∧ s.pc 2 = .sParked ∧ s.xh = [] ∧ s.sh = [1] ∧ s.d5 = 0 ∧ s.d6 = 0 := by
-  have h := reach_run (k := false) (fx := false) (n := 3) Reachable.init
-    (ls := [.xAcq 0, .sPark 1, .sPark 2, .unlock 0 false (some 1), .finish 0, .sAcq 1, .finish 1]) (s' := _) rfl
-  refine ⟨_, h, ?_, rfl, rfl, rfl, rfl, rfl⟩
-  intro l s' hs
-  cases hs <;> simp_all [init, upd, lockHelper, sharedHelper, parkE, parkS, doUnlock, notifyE, notifyAllS, wakesShared, bumpS, wake, rm] <;> grind
-
-/-- the proposed repairs of D5, D6, D7 (model flag `fixed`) are sufficient: holders are always compatible … -/
-theorem excl_Shared_repaired (h : Reachable k true n s) : Compatible s := by
-  have hi := invF_reachable h
   rcases hi.modes with ⟨_, hx, _, _⟩ | ⟨_, _, hx, hs, _⟩ | ⟨_, _, hx, _, _⟩
   · simp [Compatible, hx]
   · simp [Compatible, hx, hs]
   · simp [Compatible, hx]
 
-/-- … `try_lock` / `try_lock_shared` succeed exactly in the requested mode and fail only with an incompatible holder … -/
-theorem try_sound_Shared_repaired (h : Reachable k true n s) {f : Fid} {ok : Bool} {s' : State} :
+theorem excl_SharedTimedMutex (h : Reachable true n s) : Compatible s := excl_SharedMutex h
+
+/-- the flags describe the holders exactly: free / one writer / `_shared_owners_count` readers -/
+theorem shared_flags_exact (h : Reachable k n s) :
+    (s.occ = false ∧ s.xh = [] ∧ s.sh = [] ∧ s.cnt = 0) ∨
+    (s.occ = true ∧ s.excl = true ∧ s.xh.length = 1 ∧ s.sh = [] ∧ s.cnt = 0) ∨
+    (s.occ = true ∧ s.excl = false ∧ s.xh = [] ∧ s.sh.length = s.cnt ∧ 0 < s.cnt) := (inv_reachable h).modes
+
+/-- `try_lock` / `try_lock_shared` succeed exactly in the requested mode and fail only with an incompatible holder -/
+theorem try_sound_SharedMutex (h : Reachable k n s) {f : Fid} {ok : Bool} {s' : State} :
     (Step s (.tryX f ok) s' → (ok = true → s'.xh = [f] ∧ s'.sh = []) ∧ (ok = false → s.xh ≠ [] ∨ s.sh ≠ [])) ∧
     (Step s (.tryS f ok) s' → (ok = true → s'.xh = [] ∧ f ∈ s'.sh) ∧ (ok = false → s.xh ≠ [])) := by
-  have hi := invF_reachable h
+  have hi := inv_reachable h
   constructor
   · intro hs
     match hs with
@@ -546,52 +376,96 @@ theorem try_sound_Shared_repaired (h : Reachable k true n s) {f : Fid} {ok : Boo
         · intro h0; rw [h0] at hxh; simp at hxh
         · rw [hx.2] at he; cases he
 
-/-- … and the wake-up theorem that D7 (and D5) refute: in a quiescent state every fiber has finished, or is a writer
-    parked on a lock that is held, or a reader parked on a lock that a writer holds -/
-theorem quiescent_none_parked_SharedMutex_repaired (h : Reachable k true n s) (hq : Quiescent s) (f : Fid) :
+/-- timed acquisitions: an exclusive one that returns true is the only holder, a shared one that returns true holds next
+    to readers only; returning false, the requested deadline has passed -/
+theorem try_sound_SharedTimedMutex (h : Reachable k n s) {f : Fid} {t : Nat} {s' : State} :
+    (Step s (.txAcq f) s' → s'.xh = [f] ∧ s'.sh = []) ∧
+    (Step s (.tsAcq f) s' → s'.xh = [] ∧ f ∈ s'.sh) ∧
+    (Step s (.txTimeout f t) s' → ∃ req dl, s.pc f = .txParked req dl ∧ req ≤ t) ∧
+    (Step s (.tsTimeout f t) s' → ∃ req dl, s.pc f = .tsParked req dl ∧ req ≤ t) := by
+  have hi := inv_reachable h
+  refine ⟨?_, ?_, ?_, ?_⟩ <;> intro hs
+  · have hfree : s.occ = false → s'.xh = [f] ∧ s'.sh = [] → s'.xh = [f] ∧ s'.sh = [] := fun _ x => x
+    have key : s.occ = false → (lockHelper s f).xh = [f] ∧ (lockHelper s f).sh = [] := by
+      intro ho
+      rcases hi.modes with ⟨_, hx, hs', _⟩ | ⟨ho', _⟩ | ⟨ho', _⟩
+      · simp [lockHelper, hx, hs']
+      · rw [ho] at ho'; cases ho'
+      · rw [ho] at ho'; cases ho'
+    match hs with
+    | .txFast _ _ _ _ ho => exact key ho
+    | .txRecheckAcq _ _ _ _ _ ho => exact key ho
+  · have key : ¬ XHeld s → (sharedHelper s f).xh = [] ∧ f ∈ (sharedHelper s f).sh := by
+      intro hx
+      rcases hi.modes with ⟨_, hxh, _⟩ | ⟨ho, he, _⟩ | ⟨_, _, hxh, _⟩
+      · simp [sharedHelper, hxh]
+      · exact absurd ⟨ho, he⟩ hx
+      · simp [sharedHelper, hxh]
+    match hs with
+    | .tsFast _ _ _ _ hx => exact key hx
+    | .tsRecheckAcq _ _ _ _ _ hx => exact key hx
+  · match hs with
+    | .txTimeout _ _ _ req dl _ hp hd _ => exact ⟨req, dl, hp, Nat.le_trans (hi.dl_tx f req dl hp) hd⟩
+  · match hs with
+    | .tsTimeout _ _ _ req dl _ hp hd _ => exact ⟨req, dl, hp, Nat.le_trans (hi.dl_ts f req dl hp) hd⟩
+
+/-- a blocked locker is woken when the lock becomes available (safety form): in a quiescent state every fiber has
+    finished, or is a writer parked on a lock that is held, or a reader parked on a lock that a writer holds -/
+theorem quiescent_none_parked_SharedMutex (h : Reachable k n s) (hq : Quiescent s) (f : Fid) :
     s.pc f = .done ∨ (s.pc f = .xParked ∧ s.occ = true ∧ (s.xh ≠ [] ∨ s.sh ≠ [])) ∨
       (s.pc f = .sParked ∧ s.occ = true ∧ s.excl = true ∧ s.xh ≠ []) := by
-  have hi := invF_reachable h
-  rcases quiescent_classifyF hi hq f with hd | hx | hs
+  have hi := inv_reachable h
+  rcases quiescent_classify hi hq f with hd | hx | hs
   · exact Or.inl hd
-  · exact Or.inr (Or.inl ⟨hx, quiescent_writer_heldF hi hq f hx⟩)
-  · exact Or.inr (Or.inr ⟨hs, quiescent_reader_heldF hi f hs⟩)
+  · exact Or.inr (Or.inl ⟨hx, quiescent_writer_held hi hq f hx⟩)
+  · exact Or.inr (Or.inr ⟨hs, quiescent_reader_held hi f hs⟩)
 
-/-- the D7 schedule on the repaired code: the writer's `unlock` wakes both readers, both hold the lock in shared mode -/
-example : ∃ s, Reachable false true 3 s ∧ s.sh = [1, 2] ∧ s.xh = [] ∧ s.cnt = 2 := by
-  have h := reach_run (k := false) (fx := true) (n := 3) Reachable.init
-    (ls := [.xAcq 0, .sPark 1, .sPark 2, .unlock 0 false none, .sAcq 1, .sAcq 2]) (s' := _) rfl
-  exact ⟨_, h, rfl, rfl, rfl⟩
+/-- readers are parked only while a writer holds the lock (no transient either) -/
+theorem readers_wait_for_writers_only (h : Reachable k n s) (hs : s.sq ≠ []) : s.occ = true ∧ s.excl = true :=
+  (inv_reachable h).sq_held hs
 
-/-- the D5 schedule on the repaired code: after an exclusive `try_lock_for` the shared `try_lock` fails -/
-example : ∃ s, Reachable true true 2 s ∧ s.xh = [0] ∧ s.sh = [] ∧ s.excl = true := by
-  have h := reach_run (k := true) (fx := true) (n := 2) Reachable.init (ls := [.txAcq 0, .tryS 1 false]) (s' := _) rfl
-  exact ⟨_, h, rfl, rfl, rfl⟩
-
-theorem validator_sound_Sm {l : Label} {s' : State} (h : Reachable k false n s) (hn : next s l = some s') : Reachable k false n s' :=
+theorem validator_sound_Sm {l : Label} {s' : State} (h : Reachable k n s) (hn : next s l = some s') : Reachable k n s' :=
   .step h (next_sound hn)
 
 /-- readers share, a writer waits for the last reader and is woken by it -/
-example : ∃ s, Reachable false false 3 s ∧ s.xh = [2] ∧ s.sh = [] ∧ s.d6 = 0 ∧ Compatible s := by
-  have h := reach_run (k := false) (fx := false) (n := 3) Reachable.init
+example : ∃ s, Reachable false 3 s ∧ s.xh = [2] ∧ s.sh = [] ∧ Compatible s := by
+  have h := reach_run (k := false) (n := 3) Reachable.init
     (ls := [.sAcq 0, .tryS 1 true, .tryX 2 false, .xPark 2, .unlockS 0 none, .unlockS 1 (some 2), .xAcq 2]) (s' := _) rfl
-  exact ⟨_, h, rfl, rfl, rfl, compatible_of_writer rfl rfl⟩
+  exact ⟨_, h, rfl, rfl, excl_SharedMutex h⟩
 
-/-- `unlock` with both queues non-empty draws the coin; here it wakes the timed shared waiters -/
-example : ∃ s, Reachable true false 3 s ∧ s.pc 1 = .tsWoken ∧ s.pc 2 = .xParked := by
-  have h := reach_run (k := true) (fx := false) (n := 3) Reachable.init
-    (ls := [.xAcq 0, .tsPark 1 10 50 0, .xPark 2, .unlock 0 true none]) (s' := _) rfl
-  exact ⟨_, h, rfl, rfl⟩
+/-- the schedule that exhibited D7: the writer's `unlock` wakes both readers, both hold the lock in shared mode -/
+example : ∃ s, Reachable false 3 s ∧ s.sh = [1, 2] ∧ s.xh = [] ∧ s.cnt = 2 := by
+  have h := reach_run (k := false) (n := 3) Reachable.init
+    (ls := [.xAcq 0, .sPark 1, .sPark 2, .unlock 0 none, .sAcq 1, .sAcq 2]) (s' := _) rfl
+  exact ⟨_, h, rfl, rfl, rfl⟩
+
+/-- the schedule that exhibited D6: the woken writer finds a reader inside and parks again -/
+example : ∃ s, Reachable false 3 s ∧ s.sh = [2] ∧ s.xh = [] ∧ s.eq = [1] := by
+  have h := reach_run (k := false) (n := 3) Reachable.init
+    (ls := [.sAcq 0, .xPark 1, .unlockS 0 (some 1), .sAcq 2, .xPark 1]) (s' := _) rfl
+  exact ⟨_, h, rfl, rfl, rfl⟩
+
+/-- the schedule that exhibited D5: after an exclusive `try_lock_for` the shared `try_lock` fails -/
+example : ∃ s, Reachable true 2 s ∧ s.xh = [0] ∧ s.sh = [] ∧ s.excl = true := by
+  have h := reach_run (k := true) (n := 2) Reachable.init (ls := [.txAcq 0, .tryS 1 false]) (s' := _) rfl
+  exact ⟨_, h, rfl, rfl, rfl⟩
+
+/-- a quiescent state with a parked reader exists: the writer finished holding the lock -/
+example : ∃ s, Reachable false 2 s ∧ Quiescent s ∧ s.pc 1 = .sParked := by
+  have h := reach_run (k := false) (n := 2) Reachable.init (ls := [.xAcq 0, .finish 0, .sPark 1]) (s' := _) rfl
+  refine ⟨_, h, ?_, rfl⟩
+  intro l s' hs
+  cases hs <;> simp_all [init, upd, lockHelper, parkS, XHeld, rm] <;> grind
 
 end Shared
 
 /-! ## thread::join, sleep_for, thread-local pointers (model `Th`) -/
 section Thread
 open Th
-variable {fx : Bool} {n : Nat} {s : State}
+variable {n : Nat} {s : State}
 
 /-- `join` returns only after the thread function of the joined fiber has returned — and that fiber never runs again -/
-theorem join_after_finish (h : Reachable fx n s) {f j : Fid} {s' : State} (hs : Step s (.joinRet f j) s') :
+theorem join_after_finish (h : Reachable n s) {f j : Fid} {s' : State} (hs : Step s (.joinRet f j) s') :
     s.fin j = true ∧ s.pc j = .done := by
   have hi := inv_reachable h
   match hs with
@@ -603,67 +477,49 @@ theorem sleep_not_early {f : Fid} {t : Nat} {s' : State} (hs : Step s (.sleepWak
   match hs with
   | .sleepWake _ _ _ dl hp hd _ => exact ⟨dl, hp, hd⟩
 
-/-- thread-local pointers are per fiber, for plain pointer assignment `p = ptr` and reads of the same pointer:
-    a fiber reads what it stored last, and a store by another fiber changes nothing for it.
-    (The full property — "thread-local pointers are per fiber" for every use a `thread_local T*` supports — is
-    false: see the two witnesses below.) -/
-theorem tls_per_fiber_partial {f : Fid} {s' : State} :
+/-- thread-local pointers are per fiber: `p.Get()` / `q.Get()` return what *this* fiber last assigned to that pointer —
+    by `p = ptr`, `q = ptr` or the pointer copy `q = p` — and null if it never did, whatever other fibers do; a
+    never-assigned pointer of another pointee type reads null; and an assignment by one fiber changes nothing for
+    another -/
+theorem tls_per_fiber (h : Reachable n s) {f : Fid} {s' : State} :
     (∀ r v, Step s (.getP f r) s' → s.slot0 f = some v → r = some v) ∧
-    (∀ v g, Step s (.setP f v) s' → s'.slot0 f = some v ∧ (g ≠ f → read0 s' g = read0 s g ∧ read1 s' g = read1 s g)) := by
-  constructor
+    (∀ r, Step s (.getQ f r) s' → (∀ v, s.lastQ f = some v → r = v) ∧ (s.lastQ f = none → r = none)) ∧
+    (∀ r, Step s (.getL f r) s' → r = none) ∧
+    (∀ l g, Step s l s' → (l = .setP f 0 ∨ (∃ v, l = .setP f v) ∨ (∃ v, l = .setQ f v) ∨ l = .copyQP f) → g ≠ f →
+      read0 s' g = read0 s g ∧ read1 s' g = read1 s g) := by
+  have hi := tls_inv_reachable h
+  refine ⟨?_, ?_, ?_, ?_⟩
   · intro r v hs hv
     match hs with
     | .getP .. => simp [read0, hv]
-  · intro v g hs
+  · intro r hs
     match hs with
-    | .setP .. =>
-        refine ⟨by simp, fun hg => ?_⟩
-        simp [read0, read1, upd_apply, hg]
-
-/-- D14: `q = p` between two thread-local pointers writes the process-wide default of `q`: a fiber that never touched
-    `q` reads the value another fiber copied.  Replayed: scenario `tls f0=P1,C,GQ,E,GQ f1=GQ,P2,E,GQ`. -/
-theorem tls_copy_violated_witness :
-    ∃ s s', Reachable false 2 s ∧ Step s (.getQ 1 (some 1)) s' ∧ s.lastQ 1 = none ∧ s.slot1 1 = none := by
-  have h := reach_run (fx := false) (n := 2) Reachable.init (ls := [.setP 0 1, .copyQP 0]) (s' := _) rfl
-  exact ⟨_, _, h, next_sound (l := .getQ 1 (some 1)) (s' := _) rfl, rfl, rfl⟩
-
-/-- D14, second half: a fiber that has assigned `q` itself does not see its own later `q = p` (the copy went to the
-    default, the fiber's own entry wins).  Replayed: scenario `tls f0=PQ3,GQ,P1,C,GQ f1=GQ,PQ2,GQ`. -/
-theorem tls_copy_lost_violated_witness :
-    ∃ s s', Reachable false 1 s ∧ Step s (.getQ 0 (some 3)) s' ∧ s.lastQ 0 = some (some 1) := by
-  have h := reach_run (fx := false) (n := 1) Reachable.init (ls := [.setQ 0 3, .setP 0 1, .copyQP 0]) (s' := _) rfl
-  exact ⟨_, _, h, next_sound (l := .getQ 0 (some 3)) (s' := _) rfl, rfl⟩
-
-/-- D13: thread-local pointers of different pointee types share slot indices: a never-assigned `long*` reads what the
-    fiber stored into an `int*`.  Replayed: scenario `tls f0=GL,P1,GL f1=GL,G`. -/
-theorem tls_alias_violated_witness : ∃ s s', Reachable false 1 s ∧ Step s (.getL 0 (some 1)) s' := by
-  have h := reach_run (fx := false) (n := 1) Reachable.init (ls := [.setP 0 1]) (s' := _) rfl
-  exact ⟨_, _, h, next_sound (l := .getL 0 (some 1)) (s' := _) rfl⟩
-
-/-- the proposed repairs of D13 / D14 (model flag `fixed`) are sufficient: `q.Get()` returns what this fiber last assigned
-    to `q` — by `q = ptr` or by `q = p` — or null if it never did, whatever other fibers do; a never-assigned pointer of
-    another type reads null -/
-theorem tls_per_fiber_repaired (h : Reachable true n s) {f : Fid} {r : Option Nat} {s' : State} :
-    (Step s (.getQ f r) s' → (∀ v, s.lastQ f = some v → r = v) ∧ (s.lastQ f = none → r = none)) ∧
-    (Step s (.getL f r) s' → r = none) := by
-  have hi := invF_reachable h
-  constructor <;> intro hs
-  · match hs with
     | .getQ .. =>
         refine ⟨fun v hv => ?_, fun hn => ?_⟩
         · have := hi.q_own f v hv
           cases v <;> simp_all [read1, hi.def1]
         · simp [read1, hi.q_none f hn, hi.def1]
-  · match hs with
-    | .getL .. => simp [readL, hi.hfx]
+  · intro r hs
+    match hs with
+    | .getL .. => rfl
+  · intro l g hs hl hg
+    rcases hl with hl | ⟨v, hl⟩ | ⟨v, hl⟩ | hl <;> subst hl <;> cases hs <;>
+      simp [read0, read1, doCopy, upd_apply, hg]
 
-theorem validator_sound_Th {l : Label} {s' : State} (h : Reachable fx n s) (hn : next s l = some s') : Reachable fx n s' :=
+theorem validator_sound_Th {l : Label} {s' : State} (h : Reachable n s) (hn : next s l = some s') : Reachable n s' :=
   .step h (next_sound hn)
 
 /-- a join that has to wait: f0 joins f1 while it runs, f1 finishes, the join returns -/
-example : ∃ s, Reachable false 2 s ∧ s.pc 0 = .idle ∧ s.fin 1 = true := by
-  have h := reach_run (fx := false) (n := 2) Reachable.init (ls := [.joinStart 0 1, .work 1, .finish 1, .joinRet 0 1]) (s' := _) rfl
+example : ∃ s, Reachable 2 s ∧ s.pc 0 = .idle ∧ s.fin 1 = true := by
+  have h := reach_run (n := 2) Reachable.init (ls := [.joinStart 0 1, .work 1, .finish 1, .joinRet 0 1]) (s' := _) rfl
   exact ⟨_, h, rfl, rfl⟩
+
+/-- the schedules that exhibited D14 and D13: f0's `q = p` is invisible to f1, visible to f0 itself (also over an own
+    earlier assignment), and the `long*` stays null -/
+example : ∃ s, Reachable 2 s ∧ read1 s 1 = none ∧ read1 s 0 = some 1 ∧ readL s 0 = none := by
+  have h := reach_run (n := 2) Reachable.init (ls := [.setQ 0 3, .setP 0 1, .copyQP 0, .getQ 0 (some 1), .getQ 1 none,
+    .getL 0 none]) (s' := _) rfl
+  exact ⟨_, h, rfl, rfl, rfl⟩
 
 end Thread
 
@@ -673,7 +529,8 @@ end Yaclib.Props.C18
 the C++ method bodies (`Extracted/FiberSync.lean`, vlib/x_fibersync.py).  `core` (Proofs/FiberSyncBridge.lean) projects a
 model state to the fields of the C++ object.  Each theorem: running the extracted method (from its entry, or from the
 return of its wait) in the projection of a model state ends exactly as the model's `Step` rule says — same new field
-values, same return value, same notifications, same queue to wait on. -/
+values, same return value, same notifications, same queue to wait on.  In particular every wait re-evaluates its
+condition after the wake-up (`…_resume` = the entry function). -/
 namespace Yaclib.Props.C18.Bridge
 open Yaclib.FiberSync Yaclib.Extracted.FiberSync
 
@@ -696,17 +553,18 @@ theorem bridge_Mx_unlock (s : State) (f : Fid) (w : Option Fid) :
     Mutex.unlock (core s) = .ret (core (release s f w)) none [.one "_queue"] := by
   cases w <;> rfl
 
-/-- `TimedMutex::TimedWaitHelper` from the call: rules `tlfFast` / `tlfPark` -/
-theorem bridge_Mx_timed (s : State) (f : Fid) (t d j : Nat) :
+/-- `TimedMutex::TimedWaitHelper`: rules `tlfFast` / `tlfPark`, and after the wake-up `tlfRecheckAcq` / `tlfRepark`
+    (`_occupied` is looked at again) or the timeout -/
+theorem bridge_Mx_timed (s : State) (f : Fid) (t d j req : Nat) :
     TimedMutex.TimedWaitHelper (core s) =
-      if s.occupied then .wait (core (doTlfPark s f t d j)) "_queue" true []
-      else .ret (core (acquire s f)) (some true) [] := by
-  simp [TimedMutex.TimedWaitHelper, core, doTlfPark, acquire]
-
-/-- … from the return of the wait: rule `tlfWokenAcq` (D6: `_occupied` is not looked at) and rule `tlfTimeout` -/
-theorem bridge_Mx_timed_resume (s : State) (f : Fid) (t : Nat) :
-    TimedMutex.TimedWaitHelper_resume (core s) true = .ret (core (doTlfWokenAcq s f)) (some true) [] ∧
-    TimedMutex.TimedWaitHelper_resume (core s) false = .ret (core (doTlfTimeout s f t)) (some false) [] := ⟨rfl, rfl⟩
+      (if s.occupied then .wait (core (doTlfPark s f t d j)) "_queue" true []
+       else .ret (core (acquire s f)) (some true) []) ∧
+    TimedMutex.TimedWaitHelper_resume (core s) true =
+      (if s.occupied then .wait (core (doTlfRepark s f req j)) "_queue" true []
+       else .ret (core (acquire s f)) (some true) []) ∧
+    TimedMutex.TimedWaitHelper_resume (core s) false = .ret (core (doTlfTimeout s f t)) (some false) [] := by
+  refine ⟨?_, ?_, ?_⟩ <;> by_cases ho : s.occupied = true <;>
+    simp [TimedMutex.TimedWaitHelper, TimedMutex.TimedWaitHelper_resume, core, ho, doTlfPark, doTlfRepark, doTlfTimeout, acquire]
 end BridgeMx
 
 section BridgeRm
@@ -719,11 +577,11 @@ theorem bridge_Rm_lock (s : State) (f : Fid) :
   · simp [Free, core, hc, lockHelper, RecursiveMutex.lock]
   · by_cases ho : s.owner = some f
     · simp [Free, core, hc, ho, lockHelper, RecursiveMutex.lock]
-    · simp [Free, core, hc, ho, doPark, doTlfPark, RecursiveMutex.lock]
+    · simp [Free, core, hc, ho, doPark, RecursiveMutex.lock]
 
-/-- … after the wake-up: `LockHelper()` without looking at the fields (D6): rule `lockWokenAcq` -/
-theorem bridge_Rm_lock_resume (s : State) (f : Fid) (ready : Bool) :
-    RecursiveMutex.lock_resume (core s) f ready = .ret (core (doWokenAcq s f)) none [] := rfl
+/-- … the continuation after the wait is the loop again (rules `lockRecheckAcq` / `lockRepark`) -/
+theorem bridge_Rm_lock_recheck (c : RecursiveMutex) (me : Nat) (ready : Bool) :
+    RecursiveMutex.lock_resume c me ready = RecursiveMutex.lock c me := rfl
 
 theorem bridge_Rm_try_lock (s : State) (f : Fid) :
     RecursiveMutex.try_lock (core s) f =
@@ -732,53 +590,62 @@ theorem bridge_Rm_try_lock (s : State) (f : Fid) :
   · simp [Free, core, hc, lockHelper, RecursiveMutex.try_lock]
   · by_cases ho : s.owner = some f
     · simp [Free, core, hc, ho, lockHelper, RecursiveMutex.try_lock]
-    · simp [Free, core, hc, ho, doPark, doTlfPark, RecursiveMutex.try_lock]
+    · simp [Free, core, hc, ho, RecursiveMutex.try_lock]
 
-/-- `RecursiveMutex::unlock`: rule `unlock` — the list of notifications is empty (D4) -/
-theorem bridge_Rm_unlock (s : State) (f : Fid) :
-    RecursiveMutex.unlock (core s) = .ret (core (doUnlock s f)) none [] := by
-  simp only [RecursiveMutex.unlock, core, doUnlock]
-  by_cases h : s.count - 1 = 0 <;> simp [h]
+/-- `RecursiveMutex::unlock`: rule `unlock` — one waiter is notified when the count drops to 0 -/
+theorem bridge_Rm_unlock (s : State) (f : Fid) (w : Option Fid) :
+    RecursiveMutex.unlock (core s) =
+      .ret (core (notifyR (doUnlock s f) w)) none (if s.count - 1 = 0 then [.one "_queue"] else []) := by
+  simp only [core_notifyR]
+  by_cases h : s.count - 1 = 0 <;> simp [RecursiveMutex.unlock, core, doUnlock, h]
 
-/-- `RecursiveTimedMutex::TimedWaitHelper`: rules `tlfFast` / `tlfPark`, `tlfWokenAcq` (D6) / `tlfTimeout` -/
-theorem bridge_Rm_timed (s : State) (f : Fid) (t d j : Nat) :
+/-- `RecursiveTimedMutex::TimedWaitHelper`: rules `tlfFast` / `tlfPark`, `tlfRecheckAcq` / `tlfRepark`, the timeout -/
+theorem bridge_Rm_timed (s : State) (f : Fid) (t d j req : Nat) :
     RecursiveTimedMutex.TimedWaitHelper (core s) f =
-      if Free s f then .ret (core (lockHelper s f)) (some true) []
-      else .wait (core (doTlfPark s f t d j)) "_queue" true [] := by
-  by_cases hc : s.count = 0
-  · simp [Free, core, hc, lockHelper, RecursiveTimedMutex.TimedWaitHelper]
-  · by_cases ho : s.owner = some f
-    · simp [Free, core, hc, ho, lockHelper, RecursiveTimedMutex.TimedWaitHelper]
-    · simp [Free, core, hc, ho, doPark, doTlfPark, RecursiveTimedMutex.TimedWaitHelper]
-
-theorem bridge_Rm_timed_resume (s : State) (f : Fid) (t : Nat) :
-    RecursiveTimedMutex.TimedWaitHelper_resume (core s) f true = .ret (core (doWokenAcq s f)) (some true) [] ∧
-    RecursiveTimedMutex.TimedWaitHelper_resume (core s) f false = .ret (core (doTlfTimeout s f t)) (some false) [] :=
-  ⟨rfl, rfl⟩
+      (if Free s f then .ret (core (lockHelper s f)) (some true) []
+       else .wait (core (doTlfPark s f t d j)) "_queue" true []) ∧
+    RecursiveTimedMutex.TimedWaitHelper_resume (core s) f true =
+      (if Free s f then .ret (core (lockHelper s f)) (some true) []
+       else .wait (core (doTlfRepark s f req j)) "_queue" true []) ∧
+    RecursiveTimedMutex.TimedWaitHelper_resume (core s) f false = .ret (core (doTlfTimeout s f t)) (some false) [] := by
+  refine ⟨?_, ?_, ?_⟩
+  · by_cases hc : s.count = 0
+    · simp [Free, core, hc, lockHelper, RecursiveTimedMutex.TimedWaitHelper]
+    · by_cases ho : s.owner = some f
+      · simp [Free, core, hc, ho, lockHelper, RecursiveTimedMutex.TimedWaitHelper]
+      · simp [Free, core, hc, ho, doTlfPark, RecursiveTimedMutex.TimedWaitHelper]
+  · by_cases hc : s.count = 0
+    · simp [Free, core, hc, lockHelper, RecursiveTimedMutex.TimedWaitHelper_resume]
+    · by_cases ho : s.owner = some f
+      · simp [Free, core, hc, ho, lockHelper, RecursiveTimedMutex.TimedWaitHelper_resume]
+      · simp [Free, core, hc, ho, doTlfRepark, RecursiveTimedMutex.TimedWaitHelper_resume]
+  · simp [core, doTlfTimeout, RecursiveTimedMutex.TimedWaitHelper_resume]
 end BridgeRm
 
 section BridgeSm
 open Sm
-/-- `SharedMutex::lock`: rules `xFast` / `xPark`; after the wake-up `LockHelper()` unconditionally (D6): `xWokenAcq` -/
+/-- `SharedMutex::lock`: rules `xFast` / `xPark` (exclusive queue) -/
 theorem bridge_Sm_lock (s : State) (f : Fid) :
     SharedMutex.lock (core s) =
-      (if s.occ then .wait (core (parkE s f .xParked)) "_exclusive_queue" false [] else .ret (core (lockHelper s f)) none []) ∧
-    ∀ ready, SharedMutex.lock_resume (core s) ready = .ret (core { lockHelper s f with d6 := bumpX s }) none [] :=
-  ⟨rfl, fun _ => rfl⟩
+      if s.occ then .wait (core (parkE s f .xParked)) "_exclusive_queue" false [] else .ret (core (lockHelper s f)) none [] :=
+  rfl
+
+/-- `lock` / `lock_shared`: the continuation after the wait is the loop again -/
+theorem bridge_Sm_recheck (c : SharedMutex) (ready : Bool) :
+    SharedMutex.lock_resume c ready = SharedMutex.lock c ∧ SharedMutex.lock_shared_resume c ready = SharedMutex.lock_shared c :=
+  ⟨rfl, rfl⟩
 
 theorem bridge_Sm_try_lock (s : State) (f : Fid) :
     SharedMutex.try_lock (core s) =
       if s.occ then .ret (core s) (some false) [] else .ret (core (lockHelper s f)) (some true) [] := rfl
 
-/-- `SharedMutex::lock_shared`: rules `sFast` / `sPark` — it waits on the *exclusive* queue (D7); `sWokenAcq` (D6) -/
+/-- `SharedMutex::lock_shared`: rules `sFast` / `sPark` — readers wait on the shared queue -/
 theorem bridge_Sm_lock_shared (s : State) (f : Fid) :
     SharedMutex.lock_shared (core s) =
-      (if XHeld s then .wait (core (parkE s f .sParked)) "_exclusive_queue" false []
-       else .ret (core (sharedHelper s f)) none []) ∧
-    ∀ ready, SharedMutex.lock_shared_resume (core s) ready = .ret (core { sharedHelper s f with d6 := bumpS s }) none [] := by
-  refine ⟨?_, fun _ => rfl⟩
+      if XHeld s then .wait (core (parkS s f .sParked)) "_shared_queue" false []
+      else .ret (core (sharedHelper s f)) none [] := by
   by_cases ho : s.occ = true <;> by_cases he : s.excl = true <;>
-    simp [XHeld, SharedMutex.lock_shared, core, ho, he, parkE, sharedHelper]
+    simp [XHeld, SharedMutex.lock_shared, core, ho, he, parkS, sharedHelper]
 
 theorem bridge_Sm_try_lock_shared (s : State) (f : Fid) :
     SharedMutex.try_lock_shared (core s) =
@@ -786,17 +653,10 @@ theorem bridge_Sm_try_lock_shared (s : State) (f : Fid) :
   by_cases ho : s.occ = true <;> by_cases he : s.excl = true <;>
     simp [XHeld, SharedMutex.try_lock_shared, core, ho, he, sharedHelper]
 
-/-- `SharedMutex::unlock`: rule `unlock`: `_occupied = false`, the counters untouched, and the whole shared queue or ONE
-    fiber of the exclusive queue is notified (D7), by the coin when both are non-empty -/
-theorem bridge_Sm_unlock (s : State) (f : Fid) (rand : Nat) (w : Option Fid) :
-    SharedMutex.unlock (core s) (qempty s) rand =
-      .ret (core (doUnlock s f (rand == 0) w)) none
-        (if wakesShared s (rand == 0) then [.all "_shared_queue"] else [.one "_exclusive_queue"]) := by
-  have hc : core (doUnlock s f (rand == 0) w) = ⟨s.cnt, false, s.excl⟩ := by
-    simp only [doUnlock, core_notifyE, core_notifyAllS]; rfl
-  rw [hc]
-  by_cases hs : s.sq = [] <;> by_cases he : s.eq = [] <;> by_cases hr : rand = 0 <;>
-    simp [SharedMutex.unlock, core, qempty, wakesShared, hs, he, hr]
+/-- `SharedMutex::unlock`: rule `unlock`: all readers and one writer are notified, no random draw -/
+theorem bridge_Sm_unlock (s : State) (f : Fid) (w : Option Fid) :
+    SharedMutex.unlock (core s) = .ret (core (doUnlock s f w)) none [.all "_shared_queue", .one "_exclusive_queue"] := by
+  simp only [doUnlock, core_notifyE, core_notifyAllS]; rfl
 
 /-- `SharedMutex::unlock_shared`: rule `unlockS` -/
 theorem bridge_Sm_unlock_shared (s : State) (f : Fid) (w : Option Fid) :
@@ -807,135 +667,33 @@ theorem bridge_Sm_unlock_shared (s : State) (f : Fid) (w : Option Fid) :
   rw [hc]
   by_cases h : s.cnt - 1 = 0 <;> simp [SharedMutex.unlock_shared, core, h]
 
-/-- `SharedTimedMutex::TimedWaitHelper(timeout, exclusive)`: an *exclusive* request that does not wait ends in
-    `SharedLockHelper()` (D5: rule `txFast` uses `sharedHelperX`), one that waits waits on the exclusive queue; a shared
-    request: rules `tsFast` / `tsPark` (shared queue) -/
-theorem bridge_Sm_timed (s : State) (f : Fid) (t d j : Nat) :
+/-- `SharedTimedMutex::TimedWaitHelper(timeout, exclusive)`: the exclusive request ends in `LockHelper()` (rules `txFast`,
+    `txRecheckAcq`) and waits on the exclusive queue, the shared one in `SharedLockHelper()` and waits on the shared
+    queue; both look at the fields again after the wake-up; nothing happens after a timeout -/
+theorem bridge_Sm_timed (s : State) (f : Fid) (t d j req : Nat) (exclusive : Bool) :
     SharedTimedMutex.TimedWaitHelper (core s) true =
       (if s.occ then .wait (core { parkE s f (.txParked (t + d) (t + d + j)) with now := t }) "_exclusive_queue" true []
-       else .ret (core (sharedHelperX s f)) (some true) []) ∧
+       else .ret (core (lockHelper s f)) (some true) []) ∧
     SharedTimedMutex.TimedWaitHelper (core s) false =
       (if XHeld s then .wait (core { parkS s f (.tsParked (t + d) (t + d + j)) with now := t }) "_shared_queue" true []
-       else .ret (core (sharedHelper s f)) (some true) []) := by
-  constructor <;> by_cases ho : s.occ = true <;> by_cases he : s.excl = true <;>
-    simp [XHeld, SharedTimedMutex.TimedWaitHelper, core, ho, he, parkE, parkS, sharedHelper, sharedHelperX]
-
-/-- … from the return of the wait: `SharedLockHelper()` whatever the fields say (D5 + D6), or nothing after a timeout -/
-theorem bridge_Sm_timed_resume (s : State) (f : Fid) (exclusive : Bool) :
-    SharedTimedMutex.TimedWaitHelper_resume (core s) true true = .ret (core { sharedHelperX s f with d6 := bumpX s }) (some true) [] ∧
-    SharedTimedMutex.TimedWaitHelper_resume (core s) false true = .ret (core { sharedHelper s f with d6 := bumpS s }) (some true) [] ∧
-    SharedTimedMutex.TimedWaitHelper_resume (core s) exclusive false = .ret (core s) (some false) [] := ⟨rfl, rfl, rfl⟩
+       else .ret (core (sharedHelper s f)) (some true) []) ∧
+    SharedTimedMutex.TimedWaitHelper_resume (core s) true true =
+      (if s.occ then .wait (core (parkE s f (.txParked req (req + j)))) "_exclusive_queue" true []
+       else .ret (core (lockHelper s f)) (some true) []) ∧
+    SharedTimedMutex.TimedWaitHelper_resume (core s) false true =
+      (if XHeld s then .wait (core (parkS s f (.tsParked req (req + j)))) "_shared_queue" true []
+       else .ret (core (sharedHelper s f)) (some true) []) ∧
+    SharedTimedMutex.TimedWaitHelper_resume (core s) exclusive false = .ret (core s) (some false) [] := by
+  refine ⟨?_, ?_, ?_, ?_, ?_⟩ <;> by_cases ho : s.occ = true <;> by_cases he : s.excl = true <;>
+    simp [XHeld, SharedTimedMutex.TimedWaitHelper, SharedTimedMutex.TimedWaitHelper_resume, core, ho, he, parkE, parkS,
+      sharedHelper, lockHelper]
 end BridgeSm
 
-/-- which waits re-check their condition after the wake-up: only `Mutex::lock` -/
-theorem recheck_table : Extracted.FiberSync.methods.filter (fun m => m.2.2.2 = "loop") = [("Mutex", "lock", true, "loop")] := by
-  decide
+/-- every blocking method re-checks its condition after the wake-up -/
+theorem recheck_table :
+    Extracted.FiberSync.methods.filter (fun m => m.2.2.1 = true ∧ m.2.2.2 ≠ "loop") = [] := by decide
 
 end Yaclib.Props.C18.Bridge
-
-/-! ## the repaired variants and the repaired code
-`Extracted/FiberSyncRepaired.lean` is the (golden) output of the same translator on /repo with
-notes/C18_proposed_patches.diff applied.  These theorems pin what the `fixed` / `patch` / `loop` variants of the models
-describe: every wait re-evaluates its condition after the wake-up (`…_resume` = the entry function), `unlock` of the
-recursive mutex notifies, readers wait on the shared queue, `unlock` of the shared mutex wakes all readers and one
-writer, the exclusive timed acquisition ends in `LockHelper()`. -/
-namespace Yaclib.Props.C18.BridgeRepaired
-open Yaclib.FiberSync Yaclib.Extracted.FiberSyncRepaired
-
-section RMx
-open Mx
-/-- repaired `TimedWaitHelper`: rules `tlfFast` / `tlfPark`, and after the wake-up `tlfRecheckAcq` / `tlfRepark`
-    (`_occupied` is looked at again) or the timeout -/
-theorem repaired_Mx_timed (s : State) (f : Fid) (t d j req : Nat) :
-    TimedMutex.TimedWaitHelper (coreR s) =
-      (if s.occupied then .wait (coreR (doTlfPark s f t d j)) "_queue" true []
-       else .ret (coreR (acquire s f)) (some true) []) ∧
-    TimedMutex.TimedWaitHelper_resume (coreR s) true =
-      (if s.occupied then .wait (coreR (doTlfRepark s f req j)) "_queue" true []
-       else .ret (coreR (acquire s f)) (some true) []) ∧
-    TimedMutex.TimedWaitHelper_resume (coreR s) false = .ret (coreR (doTlfTimeout s f t)) (some false) [] := by
-  refine ⟨?_, ?_, ?_⟩ <;> by_cases ho : s.occupied = true <;>
-    simp [TimedMutex.TimedWaitHelper, TimedMutex.TimedWaitHelper_resume, coreR, ho, doTlfPark, doTlfRepark, doTlfTimeout, acquire]
-end RMx
-
-section RRm
-open Rm
-/-- repaired `RecursiveMutex::lock`: the continuation after the wait is the loop again (rules `lockRecheckAcq` / `lockRepark`) -/
-theorem repaired_Rm_lock_rechecks (c : RecursiveMutex) (me : Nat) (ready : Bool) :
-    RecursiveMutex.lock_resume c me ready = RecursiveMutex.lock c me := rfl
-
-theorem repaired_Rm_lock (s : State) (f : Fid) :
-    RecursiveMutex.lock (coreR s) f =
-      if Free s f then .ret (coreR (lockHelper s f)) none [] else .wait (coreR (doPark s f)) "_queue" false [] := by
-  by_cases hc : s.count = 0
-  · simp [Free, coreR, hc, lockHelper, RecursiveMutex.lock]
-  · by_cases ho : s.owner = some f
-    · simp [Free, coreR, hc, ho, lockHelper, RecursiveMutex.lock]
-    · simp [Free, coreR, hc, ho, doPark, RecursiveMutex.lock]
-
-/-- repaired `unlock`: one waiter is notified when the count drops to 0 (rule `unlockPatched`) -/
-theorem repaired_Rm_unlock (s : State) (f : Fid) (w : Option Fid) :
-    RecursiveMutex.unlock (coreR s) =
-      .ret (coreR (notifyR (doUnlock s f) w)) none (if s.count - 1 = 0 then [.one "_queue"] else []) := by
-  simp only [coreR_notifyR]
-  by_cases h : s.count - 1 = 0 <;> simp [RecursiveMutex.unlock, coreR, doUnlock, h]
-
-/-- repaired `RecursiveTimedMutex::TimedWaitHelper` after the wake-up: `tlfRecheckAcq` / `tlfRepark` / the timeout -/
-theorem repaired_Rm_timed_resume (s : State) (f : Fid) (t req j : Nat) :
-    RecursiveTimedMutex.TimedWaitHelper_resume (coreR s) f true =
-      (if Free s f then .ret (coreR (lockHelper s f)) (some true) []
-       else .wait (coreR (doTlfRepark s f req j)) "_queue" true []) ∧
-    RecursiveTimedMutex.TimedWaitHelper_resume (coreR s) f false = .ret (coreR (doTlfTimeout s f t)) (some false) [] := by
-  constructor
-  · by_cases hc : s.count = 0
-    · simp [Free, coreR, hc, lockHelper, RecursiveTimedMutex.TimedWaitHelper_resume]
-    · by_cases ho : s.owner = some f
-      · simp [Free, coreR, hc, ho, lockHelper, RecursiveTimedMutex.TimedWaitHelper_resume]
-      · simp [Free, coreR, hc, ho, doTlfRepark, RecursiveTimedMutex.TimedWaitHelper_resume]
-  · simp [coreR, doTlfTimeout, RecursiveTimedMutex.TimedWaitHelper_resume]
-end RRm
-
-section RSm
-open Sm
-/-- repaired `lock` / `lock_shared`: the continuation after the wait is the loop again; readers wait on the shared queue -/
-theorem repaired_Sm_rechecks (c : SharedMutex) (ready : Bool) :
-    SharedMutex.lock_resume c ready = SharedMutex.lock c ∧ SharedMutex.lock_shared_resume c ready = SharedMutex.lock_shared c :=
-  ⟨rfl, rfl⟩
-
-theorem repaired_Sm_lock_shared (s : State) (f : Fid) :
-    SharedMutex.lock_shared (coreR s) =
-      if XHeld s then .wait (coreR (parkS s f .sParked)) "_shared_queue" false []
-      else .ret (coreR (sharedHelper s f)) none [] := by
-  by_cases ho : s.occ = true <;> by_cases he : s.excl = true <;>
-    simp [XHeld, SharedMutex.lock_shared, coreR, ho, he, parkS, sharedHelper]
-
-/-- repaired `unlock`: all readers and one writer are notified (rule `unlockF`) -/
-theorem repaired_Sm_unlock (s : State) (f : Fid) (w : Option Fid) :
-    SharedMutex.unlock (coreR s) = .ret (coreR (doUnlockF s f w)) none [.all "_shared_queue", .one "_exclusive_queue"] := by
-  simp only [doUnlockF, coreR_notifyE, coreR_notifyAllS]; rfl
-
-/-- repaired `TimedWaitHelper`: the exclusive request ends in `LockHelper()` (rules `txFastF`, `txRecheckAcq`), and both
-    kinds look at the fields again after the wake-up -/
-theorem repaired_Sm_timed (s : State) (f : Fid) (t d j req : Nat) :
-    SharedTimedMutex.TimedWaitHelper (coreR s) true =
-      (if s.occ then .wait (coreR { parkE s f (.txParked (t + d) (t + d + j)) with now := t }) "_exclusive_queue" true []
-       else .ret (coreR (lockHelper s f)) (some true) []) ∧
-    SharedTimedMutex.TimedWaitHelper_resume (coreR s) true true =
-      (if s.occ then .wait (coreR (parkE s f (.txParked req (req + j)))) "_exclusive_queue" true []
-       else .ret (coreR (lockHelper s f)) (some true) []) ∧
-    SharedTimedMutex.TimedWaitHelper_resume (coreR s) false true =
-      (if XHeld s then .wait (coreR (parkS s f (.tsParked req (req + j)))) "_shared_queue" true []
-       else .ret (coreR (sharedHelper s f)) (some true) []) := by
-  refine ⟨?_, ?_, ?_⟩ <;> by_cases ho : s.occ = true <;> by_cases he : s.excl = true <;>
-    simp [XHeld, SharedTimedMutex.TimedWaitHelper, SharedTimedMutex.TimedWaitHelper_resume, coreR, ho, he, parkE, parkS,
-      sharedHelper, lockHelper]
-end RSm
-
-/-- in the repaired code every blocking method re-checks -/
-theorem repaired_recheck_table :
-    Extracted.FiberSyncRepaired.methods.filter (fun m => m.2.2.1 = true ∧ m.2.2.2 ≠ "loop") = [] := by decide
-
-end Yaclib.Props.C18.BridgeRepaired
 
 /-! ## tie to the source (T2): the functions these models were written from are unchanged.
 `Extracted/Kernels.lean` is regenerated from /repo on every check run; `Skeletons.lean` is the copy the models were
